@@ -540,3 +540,24 @@ def fx_partial(fx):
     c = _ctx()
     n = partial.run(c, fx, ["src/lib.rs"], only=lambda fid: "partialfx::" in fid)
     return n == 3 and _fires(c, "bad_flush") and not _fires(c, "ok_flush") and not _fires(c, "drain_to")
+
+
+def fx_openguard(fx):
+    from rules import openguard
+    res = {}
+    for f in ("ok_open", "ok_open_helper", "bad_open", "bad_open_ignored"):
+        c = _ctx()
+        openguard.check(c, Fn(fx.raw("openfx::FV::" + f)), r"::capacity$|Header::capacity", r"fs::Metadata::len$|fs::metadata$", fx=fx)
+        res[f] = len(c.violations)
+    return res == {"ok_open": 0, "ok_open_helper": 0, "bad_open": 1, "bad_open_ignored": 1}
+
+
+def fx_flow(fx):
+    from rules import flow
+    src = r"Read::read_exact$|Read>::read_exact$"
+    fld = "flowfx::St::content"
+    f = lambda n: Fn(fx.raw("flowfx::St::" + n))
+    return flow.source_reaches_field(f("ok_load"), src, fld, fx=fx) and flow.source_reaches_field(f("ok_load_helper"), src, fld, fx=fx) \
+        and not flow.source_reaches_field(f("bad_load"), src, fld, fx=fx) \
+        and flow.field_reaches_sink(f("ok_save"), fld, r"Write::write_all$|Write>::write_all$") \
+        and not flow.field_reaches_sink(f("bad_save"), fld, r"Write::write_all$|Write>::write_all$")
